@@ -550,7 +550,7 @@ def r7(R):
 # ------------------------------------------------------------------ C07.R8
 @rule('C07.R8', 'every implementation of the backpointer search picks the '
       'LAST record of the object in the target transaction (the one load '
-      'uses): FileStorage and the pack copier agree', props=['C06', 'C17'],
+      'uses): FileStorage and the pack copier agree', props=['C06', 'C17', 'C08'],
       min_instances=2)
 def r8(R):
     """Sibling agreement (F28).  A transaction that undoes several
